@@ -30,30 +30,38 @@ impl ErrorQueue for LogQueue {
     fn pop_error(&mut self) -> Option<Error> { self.inner.pop_error() }
 }
 
-pub struct Dev {
+pub const ALL_ERRORS: &[Error] = &[Error::CommandError, Error::InvalidCharacter, Error::SyntaxError, Error::InvalidSeparator, Error::DataTypeError, Error::GetNotAllowed, Error::ParameterNotAllowed, Error::MissingParameter, Error::CommandHeaderError, Error::HeaderSeparatorError, Error::ProgramMnemonicTooLong, Error::UndefinedHeader, Error::HeaderSuffixOutOfRange, Error::UnexpectedNumberOfParameters, Error::NumericDataError, Error::InvalidCharacterInNumber, Error::ExponentTooLarge, Error::TooManyDigits, Error::NumericDataNotAllowed, Error::SuffixError, Error::InvalidSuffix, Error::SuffixTooLong, Error::SuffixNotAllowed, Error::CharacterDataError, Error::InvalidCharacterData, Error::CharacterDataTooLong, Error::CharacterNotAllowed, Error::StringDataError, Error::InvalidStringData, Error::StringDataNotAllowed, Error::BlockDataError, Error::InvalidBlockData, Error::BlockDataNotAllowed, Error::ExpressionError, Error::InvalidExpression, Error::ExpressionDataNotAllowed, Error::ExecutionError, Error::InvalidWhileInLocal, Error::CommandProtected, Error::ParameterError, Error::TriggerError, Error::SettingsConflict, Error::DataOutOfRange, Error::TooMuchData, Error::IllegalParameterValue, Error::OutOfMemory, Error::ListsNotSameLength, Error::DataCorruptOrStale, Error::HardwareError, Error::DeviceSpecificError, Error::SystemError, Error::StorageFault, Error::SelfTestFailed, Error::CalibrationFailed, Error::QueueOverflow, Error::CommunicationError, Error::InputBufferOverrun, Error::TimeoutError, Error::QueryError];
+pub fn hexs(b: &[u8]) -> String { b.iter().map(|x| format!("{x:02x}")).collect() }
+
+/// The same device twice: `Dev` reports through the logging queue wrapper (every reported error is seen, in order);
+/// `DevRaw` hands the library the crate's own `StaticErrorQueue` directly, so that everything the library does with the
+/// queue type itself (including trait methods a wrapper would not forward) is exercised; its errors are observed through
+/// the queue queries and by draining the queue at the end.
+macro_rules! device { ($m:ident, $name:ident, $qty:ty, $mkq:expr) => {
+// (the macro emits its node table as module-level statics: two interfaces need two modules)
+pub mod $m {
+use super::*;
+pub struct $name {
     pub log: Log,
-    pub queue: LogQueue,
+    pub queue: $qty,
     pub level: u8,
     pub text: String,
     pub block: Vec<u8>,
 }
-impl Dev {
-    pub fn new() -> Dev {
+impl $name {
+    pub fn new() -> $name {
         let log: Log = Rc::new(RefCell::new(Vec::new()));
-        Dev { log: log.clone(), queue: LogQueue { inner: StaticErrorQueue::new(), log }, level: 0, text: String::new(), block: Vec::new() }
+        $name { log: log.clone(), queue: ($mkq)(log), level: 0, text: String::new(), block: Vec::new() }
     }
-    fn call(&self, s: String) { self.log.borrow_mut().push(REv::Call(s)); }
+    pub(crate) fn call(&self, s: String) { self.log.borrow_mut().push(REv::Call(s)); }
 }
-impl ErrorCommands for Dev {
+impl ErrorCommands for $name {
     fn error_queue(&mut self) -> &mut impl ErrorQueue { &mut self.queue }
 }
-impl StandardCommands for Dev {}
-
-pub const ALL_ERRORS: &[Error] = &[Error::CommandError, Error::InvalidCharacter, Error::SyntaxError, Error::InvalidSeparator, Error::DataTypeError, Error::GetNotAllowed, Error::ParameterNotAllowed, Error::MissingParameter, Error::CommandHeaderError, Error::HeaderSeparatorError, Error::ProgramMnemonicTooLong, Error::UndefinedHeader, Error::HeaderSuffixOutOfRange, Error::UnexpectedNumberOfParameters, Error::NumericDataError, Error::InvalidCharacterInNumber, Error::ExponentTooLarge, Error::TooManyDigits, Error::NumericDataNotAllowed, Error::SuffixError, Error::InvalidSuffix, Error::SuffixTooLong, Error::SuffixNotAllowed, Error::CharacterDataError, Error::InvalidCharacterData, Error::CharacterDataTooLong, Error::CharacterNotAllowed, Error::StringDataError, Error::InvalidStringData, Error::StringDataNotAllowed, Error::BlockDataError, Error::InvalidBlockData, Error::BlockDataNotAllowed, Error::ExpressionError, Error::InvalidExpression, Error::ExpressionDataNotAllowed, Error::ExecutionError, Error::InvalidWhileInLocal, Error::CommandProtected, Error::ParameterError, Error::TriggerError, Error::SettingsConflict, Error::DataOutOfRange, Error::TooMuchData, Error::IllegalParameterValue, Error::OutOfMemory, Error::ListsNotSameLength, Error::DataCorruptOrStale, Error::HardwareError, Error::DeviceSpecificError, Error::SystemError, Error::StorageFault, Error::SelfTestFailed, Error::CalibrationFailed, Error::QueueOverflow, Error::CommunicationError, Error::InputBufferOverrun, Error::TimeoutError, Error::QueryError];
-pub fn hexs(b: &[u8]) -> String { b.iter().map(|x| format!("{x:02x}")).collect() }
+impl StandardCommands for $name {}
 
 #[scpi::interface(StandardCommands, ErrorCommands)]
-impl Dev {
+impl $name {
     /// an item WITHOUT #[scpi] inside the interface block (command ids are positions among the handlers only)
     pub fn touch(&mut self) -> usize { self.log.borrow().len() }
     pub fn touch2(&mut self) -> usize { self.touch() + 1 }
@@ -160,4 +168,11 @@ impl Dev {
     async fn freq_start(&mut self) -> Result<(), Error> { self.call("FREQ:STAR".into()); Ok(()) }
     #[scpi(cmd = "FREQuency:STOP")]
     async fn freq_stop(&mut self) -> Result<(), Error> { self.call("FREQ:STOP".into()); Ok(()) }
+    #[scpi(cmd = "MATH:ECHO?")]
+    async fn echo(&mut self, v: u64) -> Result<u64, Error> { self.call(format!("MATH:ECHO?({v})")); Ok(v) }
 }
+}
+pub use $m::$name;
+} }
+device!(dev_logged, Dev, LogQueue, |log: Log| LogQueue { inner: StaticErrorQueue::new(), log });
+device!(dev_raw, DevRaw, StaticErrorQueue<QCAP>, |_log: Log| StaticErrorQueue::new());
